@@ -1,6 +1,6 @@
 /* C05: loop-shift selection terminates and is correct.  Real code: orc/orcprogram-x86.c:orc_x86_compiler_max_loop_shift */
 #include "verif.h"
-#include "../../../repo/orc/orcprogram-x86.c"
+#include "orcprogram-x86.c"
 void orc_debug_print (int level, const char *file, const char *func, int line, const char *format, ...) { }
 
 void h_loopshift (void)
